@@ -102,6 +102,47 @@ theorem no_overdraft_any_schedule_partial (σ : Schedule) (w₀ : World) (h₀ :
   refine ⟨b + (run σ w₀).spent s p, ?_, rfl, hfunds⟩
   rw [commit_latest _ _ _ h.1, h.2]
 
+/-- The same with the hypothesis spelled out as a decidable predicate on the world in which the
+    statement runs: `CommittedWhenIssued w s ps p` = "pair `p` is in the snapshot `GetBalances ps` took
+    when it was first issued (its row was committed, or written earlier in the same transaction, at
+    that moment) and has a version". For such a pair the completing step reads the latest balance `b`
+    under lock, and for every later schedule, as long as that read stands (the transaction has not
+    ended), a commit under the funds check leaves the pair at `b + spent ≥ −allowance`. -/
+theorem no_overdraft_any_schedule_partial_explicit (σ σ' : Schedule) (w₀ : World) (h₀ : ReadInv w₀)
+    (s : Sid) (ps : List Nat) (k : Out → Prog) (w' : World) (o : Out) (p : Nat) (allowance : Int)
+    (hp : ((run σ w₀).sess s).prog = .stmt (.getBalances ps) k) (hab : ((run σ w₀).sess s).aborted = false)
+    (he : getBal (run σ w₀) s ps (snapOf (run σ w₀) s ps) = .done w' o) (hmem : p ∈ ps)
+    (hc : CommittedWhenIssued (run σ w₀) s ps p = true) :
+    let b := (((run σ w₀).vols p).latest).getD 0
+    let w1 := step (run σ w₀) s
+    w1.reads s p = some b ∧
+    ((run σ' w1).reads s p = some b → b + (run σ' w1).spent s p ≥ -allowance →
+      ∃ v, (((run σ' w1).commitTx s).vols p).com = some v ∧ v ≥ -allowance) := by
+  intro b w1
+  have h1 := getBalances_step_reads (run σ w₀) s ps k w' o p hp hab he hmem hc
+  refine ⟨h1.1, ?_⟩
+  intro hr hf
+  have hinv : ReadInv w1 := readInv_step _ s (readInv_run σ w₀ h₀)
+  obtain ⟨v, hv, _, hge⟩ := no_overdraft_any_schedule_partial σ' w1 hinv s p b allowance hr hf
+  exact ⟨v, hv, hge⟩
+
+/-- non-vacuity: a REACHABLE world with two concurrent writers on a pair whose row is committed
+    beforehand (both have begun; writer 1 is about to run `GetBalances [1]`): the hypotheses hold, and
+    the conclusion is the expected one — writer 1 reads 0, spends 10 within its allowance of 10, and
+    after both ran (writer 2 waited for the row lock and was refused) the pair is at −10. -/
+example :
+    let w₀ : World := { cxWorld with vols := fun k => if k = 1 then { com := some 0 } else {} }
+    let w := run [1, 2] w₀
+    ReadInv w₀ ∧ CommittedWhenIssued w 1 [1] 1 = true ∧ ((w.sess 1).prog.next.map Stmt.kindK = some .getBalances) ∧
+    (w.sess 1).aborted = false ∧ ((w.sess 2).prog.next.map Stmt.kindK = some .getBalances) ∧
+    (step w 1).reads 1 1 = some 0 ∧
+    ((run [1, 2, 1, 1, 1] (step w 1)).reads 1 1 = some 0 ∧ (run [1, 2, 1, 1, 1] (step w 1)).spent 1 1 = -10) ∧
+    ((run ([1, 2, 1, 1, 1, 1] ++ [2, 2, 2]) (step w 1)).vols 1).com = some (-10) := by
+  refine ⟨⟨fun k => ?_, fun s p b h => by cases h⟩, by decide⟩
+  intro h
+  simp only
+  split <;> rfl
+
 /-- the COMMIT step of a session is `commitTx` -/
 theorem commit_step (w : World) (s : Sid) (k : Out → Prog)
     (hp : (w.sess s).prog = .stmt .commit k) (htx : (w.sess s).inTx = true) (hab : (w.sess s).aborted = false) :
@@ -109,14 +150,19 @@ theorem commit_step (w : World) (s : Sid) (k : Out → Prog)
   unfold step stepR
   simp [hp, htx, hab, advance]
 
-/-- the funds check of a bounded send is made on the value `GetBalances` returned -/
-theorem send_checks_funds (q : Send) (x : Nat) (hq : q.allow = .bounded x) (fail refuse succ)
-    (o : Out) (ho : o.err = none) (hpos : q.amt ≠ 0) (hlt : (o.vals.headD 0) + (x : Int) < (q.amt : Int)) :
+/-- the funds check of a bounded send is made on the value `GetBalances` returned (single-statement
+    script; for several statements `fundsOk` runs the same test statement by statement on the tracked balances) -/
+theorem send_checks_funds (q : Send) (x : Nat) (hq : q.allow = .bounded x) (hl : q.legs = []) (hr : q.readPairs = [])
+    (fail refuse succ) (v : Int) (rest : List Int)
+    (o : Out) (ho : o.err = none) (hv : o.vals = v :: rest) (hpos : q.amt ≠ 0) (hlt : v + (x : Int) < (q.amt : Int)) :
     (sendBody q fail refuse succ).next = some (.getBalances [q.src]) ∧
     (sendBody q fail refuse succ).cont o = refuse "insufficient-funds" := by
   unfold sendBody
-  simp only [hq, Prog.next, Prog.cont, ho, true_and]
-  rw [if_neg (by omega)]
+  simp only [Send.reads, hq, hr, hl, List.isEmpty_nil, Bool.not_true, Bool.false_eq_true, if_false, List.isEmpty_cons,
+    Prog.next, Prog.cont, ho, true_and, hv, List.zip_cons_cons, fundsOk]
+  have h1 : ¬ (q.amt = 0) := hpos
+  have h2 : ¬ ((v + (x : Int)) ≥ (q.amt : Int)) := by omega
+  simp [h1, h2]
 
 /-- `nonforced_revert_refuses_negative`: a non-forced revert whose reverse posting would leave the
     (non-world) account negative is refused before anything is written -/
